@@ -214,7 +214,7 @@ fn interpreted_strategy() -> BoxedStrategy<DeclCase> {
 }
 
 /// a value of one of the recursive declarations nested `depth` levels
-fn deep_value(name: &str, depth: usize) -> Val {
+pub fn deep_value(name: &str, depth: usize) -> Val {
     let mut v = match name {
         "RecTree" => Val::Rec(vec![Val::str("leaf"), Val::Seq(vec![])]),
         "RecList" => Val::Rec(vec![Val::Int(0), Val::None]),
